@@ -77,7 +77,7 @@ Lemma save_and_log_refs : forall a x ri sr name value cat nid input x' v,
   save_and_log a x ri sr name value cat nid input = Done x' v -> keeps x x'.
 Proof.
   intros a x ri sr name value cat nid input x' v H Hsr. unfold save_and_log.
-  destruct (trunc value _); [|discriminate]. destruct (get_run (session_ x) ri).
+  destruct (trunc value _); [|discriminate]. destruct (trunc_ellipsis input _) as [kept|]; [|discriminate]. destruct (get_run (session_ x) ri).
   - destruct (save_result _ _) as [rs ch]. intros E; inversion E; subst. destruct ch.
     + split; [apply refs_ok_log_event; [apply refs_ok_upd; auto|rewrite plens_upd by reflexivity; auto]|].
       rewrite plens_log_event. apply plens_upd. reflexivity.
